@@ -73,6 +73,23 @@ func checkForwarding(r *Reporter, p *Prog, rule string, o fwdOpts) {
 			inner = rn
 		}
 		calls := forwardingCalls(info, fd, o.Field, inner)
+		if len(calls) == 0 && !fd.Name.IsExported() {
+			// an unexported helper of the wrapper itself (a locking helper, say), not an operation
+			// of the wrapped value: nothing to delegate
+			if _, st := p.NamedStruct(o.Pkg, o.Type); st != nil {
+				isOp := false
+				for i := 0; i < st.NumFields(); i++ {
+					if st.Field(i).Name() == o.Field {
+						if obj, _, _ := types.LookupFieldOrMethod(st.Field(i).Type(), true, pk.Types, inner); obj != nil {
+							isOp = true
+						}
+					}
+				}
+				if !isOp {
+					continue
+				}
+			}
+		}
 		if len(calls) != 1 {
 			r.Fail(rule, key, p.posStr(fd.Pos()), fmt.Sprintf("expected exactly one call of %s.%s, found %d: the wrapper does not delegate this operation", o.Field, inner, len(calls)))
 			continue
